@@ -349,7 +349,11 @@ pub fn send_to_gui(message: &str) {
 pub fn read_from_gui() -> String {
     let stdin = io::stdin();
     let mut buffer = String::new();
-    stdin.lock().read_line(&mut buffer).unwrap();
+    let bytes_read = stdin.lock().read_line(&mut buffer).unwrap();
+    if bytes_read == 0 {
+        // end of input, the GUI is gone: behave as if it had told us to quit instead of spinning on empty reads
+        return "quit".to_string();
+    }
     buffer = clean_input(&buffer);
     info!("ENGINE << {}", buffer);
     buffer
